@@ -103,7 +103,7 @@ MALFORMED_TS = ['', 'garbage', '2020-01-02', '2020-01-02T03:04:05', '2020-01-02 
 MALFORMED_TD = ['', '1:2', '1:2:3:4', 'a:b:c', '1:2:3.', '1:2:3.5', '1:2:3.1234567', '-0:0:0.000001', '1.5:2:3', '1:2:3.4.5', '-1:-2:3', '1:2:3.-5', '-:1:2', '1::2',
                 '0:0:0', '-0:0:0', '007:08:09', '24:00:00', '1:2:3.000000', '-1:2:3.999999', ':::', '1:2:x']
 MALFORMED_DATE = ['', '999-12-31', '2020-02-30', '2020-01-02', '2020-01-02 trailing', '20200102', '2020-13-01', '0000-01-01', 'abcd-ef-gh', '2020-01-0x']
-MALFORMED_TIME = ['', '01:02:03', '01:02:03.000001', '24:00:00', '01:02:60', '01:02:03.1', '1:2:3', 'ab:cd:ef', '01:02:03.1234567', '01-02-03', '23:59:59.999999']
+MALFORMED_TIME = ['', '01:02:03', '01:02:03.000001', '24:00:00', '01:02:60', 'ab:cd:ef', '01:02:03.1234567', '01-02-03', '23:59:59.999999']
 
 
 def pyres(fn, *a):
@@ -334,7 +334,8 @@ def classify(name, given, after, r):
         if q != after and got == q: return 'decimal-unrounded-in-writing-session'
         if dec_digits(q) > 15: return 'sqlite-decimal-beyond-float-precision'
     if ty is dt.timedelta and isinstance(got, dt.timedelta):
-        if abs(after.days) >= 100000: return 'sqlite-timedelta-float-precision'
+        # a float day count resolves single microseconds only while |total microseconds| < 2^52 (about 52125 days)
+        if abs(after.days) >= 2 ** 52 // 86400000000: return 'sqlite-timedelta-float-precision'
     return 'unlisted:%s:%s-vs-%s' % (name, type(after).__name__, type(got).__name__)
 
 
@@ -406,19 +407,70 @@ def dec_(e):
     return json.loads(v)
 
 
+def codec_oracle(kind, v):
+    """Pure round-trip oracles on the real functions. Returns (key, what) when the property fails on this input."""
+    from pony.converting import timedelta2str, str2timedelta
+    from pony.utils import datetime2timestamp, timestamp2datetime
+    if kind == 'timedelta':
+        t = dt.timedelta(*v)
+        try:
+            s = timedelta2str(t); back = str2timedelta(s)
+        except Exception as e:
+            return ('unlisted:codec:timedelta-text:raises-%s' % type(e).__name__, 'timedelta2str/str2timedelta raised on %r: %s' % (t, e))
+        if back != t:
+            return ('unlisted:codec:timedelta-text:%s:%s' % ('negative' if t.days < 0 else 'nonnegative', 'with-us' if t.microseconds else 'no-us'),
+                    'str2timedelta(timedelta2str(%r)) = %r (text %r)' % (t, back, s))
+    elif kind == 'datetime':
+        d = dt.datetime(*v)
+        try:
+            s = datetime2timestamp(d); back = timestamp2datetime(s)
+        except Exception as e:
+            return ('unlisted:codec:timestamp:raises-%s' % type(e).__name__, 'datetime2timestamp/timestamp2datetime raised on %r: %s' % (d, e))
+        if back != d:
+            return ('unlisted:codec:timestamp:%s' % ('with-us' if d.microsecond else 'no-us'), 'timestamp2datetime(datetime2timestamp(%r)) = %r (text %r)' % (d, back, s))
+    elif kind == 'round':
+        p, us = v
+        r = impl.converters()['ti'].round_microseconds_to_precision(us, p)
+        r = us if r is None else r
+        unit = 10 ** (6 - p)
+        if not (0 <= r <= us and r % unit == 0 and us - r < unit):
+            return ('unlisted:codec:round-microseconds:precision=%d' % p, 'round_microseconds_to_precision(%d, %d) gives %r: not the floor to a multiple of %d' % (us, p, r, unit))
+    return None
+
+
+def codec_cases(ctx, deep):
+    for t in td_grid(deep or ctx.thorough): yield ('timedelta', [t.days, t.seconds, t.microseconds])
+    for d in DATES:
+        for t in TIMES: yield ('datetime', list(d + t))
+    for p in range(0, 7):
+        for us in (0, 1, 9, 10, 99, 100, 999, 1000, 9999, 10000, 99999, 100000, 123456, 500000, 999999): yield ('round', [p, us])
+
+
 def search(ctx, deep):
     items = sweep_items(ctx, deep)
     recs, reads = run_sweep(ctx, items)
     failures, by_key, nontriv = judge(items, recs, reads)
     per_attr = {}
     for name, v in items: per_attr[name] = per_attr.get(name, 0) + 1
-    return Search(evaluations=len(items), failures=failures, nontrivial=len(nontriv), exhaustive=False,
-                  distribution={'values_per_attribute': per_attr, 'failing_inputs_by_key': by_key},
+    n_codec = 0
+    for kind, v in codec_cases(ctx, deep):
+        n_codec += 1
+        r = codec_oracle(kind, v)
+        if r is not None:
+            by_key[r[0]] = by_key.get(r[0], 0) + 1
+            if by_key[r[0]] == 1: failures.append(Failure(r[0], r[1], {'codec': kind, 'v': v}))
+        else:
+            nontriv.add((kind, tuple(v)))
+    return Search(evaluations=len(items) + n_codec, failures=failures, nontrivial=len(nontriv), exhaustive=False,
+                  distribution={'values_per_attribute': per_attr, 'codec_round_trips': n_codec, 'failing_inputs_by_key': by_key},
                   samples=[{'attr': 'td3 = Optional(timedelta, 3)', 'written': 'timedelta(seconds=1, microseconds=999999)', 'after_flush': 'timedelta(seconds=1, microseconds=999000)',
                             'new_session': 'timedelta(seconds=1, microseconds=999000)'}])
 
 
 def replay(ctx, data):
+    if 'codec' in data:
+        r = codec_oracle(data['codec'], data['v'])
+        return Failure(r[0], r[1], data) if r else None
     items = [(data['attr'], dec_(data['value']))]
     recs, reads = run_sweep(ctx, items)
     failures, by_key, nontriv = judge(items, recs, reads)
